@@ -692,6 +692,9 @@ func (env *Env) call(n *ast.CallExpr) *Val {
 		case "allocated":
 			v := env.eval(n.Args[0])
 			return &Val{T: sx("select", e.allocGet(env.st), v.T), Ty: tBool}
+		case "locked":
+			// locked(x.mu): the verified code holds that mutex (lock.go)
+			return &Val{T: e.isHeld(env.st, env.addrOfExpr(n.Args[0])), Ty: tBool}
 		case "errIs":
 			// errIs(err, target): the relation errors.Is is modelled by (errorsis.go)
 			e.declOnce("fun:errIs", "(declare-fun errIs (Int Int) Bool)")
